@@ -19,6 +19,7 @@
 
 #include <cstdint>
 #include <istream>
+#include <limits>
 
 #include <nop/status.h>
 
@@ -59,7 +60,18 @@ class StreamReader {
   }
 
   Status<void> Skip(std::size_t padding_bytes) {
-    stream_.seekg(padding_bytes, std::ios_base::cur);
+    // Consume the bytes instead of seeking so that running off the end of the
+    // stream is reported: seeking past the end only sets failbit.
+    const std::size_t kMaxChunk =
+        static_cast<std::size_t>(std::numeric_limits<std::streamsize>::max() - 1);
+    while (padding_bytes > 0) {
+      const std::size_t chunk =
+          padding_bytes < kMaxChunk ? padding_bytes : kMaxChunk;
+      stream_.ignore(static_cast<std::streamsize>(chunk));
+      if (static_cast<std::size_t>(stream_.gcount()) != chunk)
+        return ErrorStatus::StreamError;
+      padding_bytes -= chunk;
+    }
     return ReturnStatus();
   }
 
